@@ -32,8 +32,10 @@ def case_st(draw):
     pl["metric"] = sinks in ("both", "metric")
     pl["log"] = sinks in ("both", "log")
     case["placement"] = pl
-    if gen.chance(draw, 0.3, "c14-op"):
-        case["cfg"]["operation"] = draw(st.sampled_from(["fetch", "op2", "x"]))
+    if gen.chance(draw, 0.4, "c14-op"):
+        case["cfg"]["operation"] = draw(st.sampled_from(["fetch", "op2", "x", None, None, ""]))
+    if gen.chance(draw, 0.3, "c14-tl"):
+        pl["timeline"] = "instance"
     case["entry"] = draw(st.sampled_from(C.WIDE_ENTRIES))
     return case
 
